@@ -234,9 +234,29 @@ namespace Track
 	}
       else if (state == DecodeState::LookingForRecord)
 	{
+	  const size_t search_start = thisbit;
 	  std::optional<unsigned int> found = find_record_address_mark();
 	  if (!found)
 	    break;
+	  // The record must be the next field on the track.  If an ID
+	  // address mark lies between the sector ID and this record,
+	  // the record belongs to that later sector (our own record is
+	  // missing or damaged), so go back and decode that ID instead
+	  // of returning its data under our address.
+	  auto next_id = bits.scan_for(search_start,
+				       0xAAAAAAAAF57E,
+				       0xFFFFFFFFFFFF);
+	  if (next_id && next_id->first < thisbit)
+	    {
+	      if (verbose)
+		{
+		  std::cerr << "No record found for sector " << sec.address
+			    << " before the next sector ID\n";
+		}
+	      thisbit = search_start;
+	      state = DecodeState::LookingForAddress;
+	      continue;
+	    }
 	  const bool discard_record = *found == 0xF56A;
 	  if (verbose)
 	    {
